@@ -94,6 +94,29 @@ Theorem C07_noninterference_refuted :
     components V31 (f9_u "oneof=red blue") = components V31 (f9_u "").
 Proof. exact f9_refuted. Qed.
 
+(* the reachability the oracle prop_C07 computes (Kleene iteration over the declaration list, written
+   from the property text) is the same set as the model's worklist closure *)
+Theorem C07_oracle_reach : forall u k,
+  NoDup (decl_keys u) -> (In k (reachable_set u) <-> In k (reach u)).
+Proof. exact reachable_set_reach. Qed.
+
+(* the property oracle accepts the components the model builds.
+   Full statement: forall v u t ops, components v u = Some t -> prop_C07 u (document with components t) = true.
+   False in general (F9: usage-site oneof in 3.0; F16: equal bare names; F18: 3.0 non-string enums;
+   F20: Rfc7807Error caused by a custom error type embedding error); proved under: no oneof/enum
+   rule on a $ref usage, unique bare names, every declaration declared once, the error special
+   only present through a plain-error route, and (3.0) only string enums *)
+Theorem C07_holds_partial : forall v u t ops,
+  components v u = Some t -> quiet u = true -> unique_type_names u -> NoDup (decl_keys u) ->
+  plain_error_present u = returns_plain_error u -> enums_fit v u ->
+  prop_C07 u (mkDoc (dc_title (u_cfg u)) (dc_version (u_cfg u)) [dc_base_url (u_cfg u)] (dc_schemes (u_cfg u)) ops t) = true.
+Proof. exact prop_C07_holds. Qed.
+
+Example C07_nonvacuous_holds :
+  components V31 demo_u <> None /\ quiet demo_u = true /\ unique_type_names demo_u /\ NoDup (decl_keys demo_u) /\
+  plain_error_present demo_u = returns_plain_error demo_u /\ enums_fit V31 demo_u /\ ~ enums_fit V30 demo_u.
+Proof. exact demo_holds_hyps. Qed.
+
 (* non-vacuity: a universe with embedding, recursion, another package, unexported and json:"-"
    fields, enums of two kinds, an alias and an unused type satisfies every hypothesis above;
    its reach is non-trivial and stable under more fuel; the oracle accepts the model's document
@@ -132,6 +155,9 @@ Print Assumptions C07_lookup_partial.
 Print Assumptions C07_noninterference_V31.
 Print Assumptions C07_noninterference_partial.
 Print Assumptions C07_noninterference_refuted.
+Print Assumptions C07_oracle_reach.
+Print Assumptions C07_holds_partial.
+Print Assumptions C07_nonvacuous_holds.
 Print Assumptions C07_nonvacuous_reach.
 Print Assumptions C07_nonvacuous_hyps.
 Print Assumptions C07_nonvacuous_doc.
